@@ -470,18 +470,43 @@ func c14Lookup(c *Ctx, p *Prog) {
 				bad += "the base name at " + p.pos(in.Pos()) + " is not name[:len(name)-len(suffix)] under HasSuffix(name, suffix); "
 			}
 		})
+		// or, equivalently, strings.TrimSuffix(name, suffix) under HasSuffix(name, suffix) with the same suffix
+		eachInstr(fn, func(in ssa.Instruction) {
+			call, ok := in.(*ssa.Call)
+			if !ok || calleeName(&call.Call) != "strings.TrimSuffix" || len(call.Call.Args) != 2 {
+				return
+			}
+			if prm, isP := derefCell(call.Call.Args[0]).(*ssa.Parameter); !isP || prm != fn.Params[0] {
+				return
+			}
+			n++
+			cut, isLit := constString(call.Call.Args[1])
+			anchored := false
+			for _, g := range rawGuardsAt(in.Block()) {
+				if gc, isCall := g.Cond.(*ssa.Call); isCall && g.Positive && calleeName(&gc.Call) == "strings.HasSuffix" {
+					if lit, ok := constString(gc.Call.Args[1]); ok && isLit && lit == cut && derefCell(gc.Call.Args[0]) == derefCell(call.Call.Args[0]) {
+						anchored = true
+					}
+				}
+			}
+			if !anchored {
+				bad += "the base name at " + p.pos(in.Pos()) + " is not cut under HasSuffix(name, suffix) with the same suffix; "
+			}
+		})
 		c.Check(bad == "" && n >= 2, "C14-R5", "LookupTerminfo:variant-suffix-anchored", p.pos(fn.Pos()), fmt.Sprintf("%d base names cut off the end of the name under the matching HasSuffix test %s", n, bad))
 	}
 	// synthesised strings
 	synth := map[string]string{}
-	eachInstr(fn, func(in ssa.Instruction) {
+	// (in LookupTerminfo or in the helpers it builds the amended copies with)
+	for _, d := range deepInstrs(p, fn, 2, nil) {
+		in := d.in
 		st, ok := in.(*ssa.Store)
 		if !ok {
-			return
+			continue
 		}
 		ref, _, ok := fieldAddrRef(st.Addr)
 		if !ok || ref.Owner != "terminfo.Terminfo" {
-			return
+			continue
 		}
 		if s, ok := constString(st.Val); ok {
 			synth[ref.Name] = s
@@ -489,7 +514,7 @@ func c14Lookup(c *Ctx, p *Prog) {
 		if k, ok := constInt(st.Val); ok && ref.Name == "Colors" {
 			c.Check(k == 256, "C14-R5", "synth:Colors", p.pos(in.Pos()), fmt.Sprintf("synthesised colour count %d", k))
 		}
-	})
+	}
 	want := []string{"SetFg", "SetBg", "SetFgBg", "ResetFgBg", "SetFgRGB", "SetBgRGB", "SetFgBgRGB"}
 	for _, f := range want {
 		s, ok := synth[f]
@@ -891,6 +916,59 @@ func c14FoundBaseIsUsed(c *Ctx, p *Prog) {
 		}
 		c.Check(used, "C14-R9", fmt.Sprintf("LookupTerminfo:fallback#%d:found-base-is-used", n), p.pos(call.Pos()), "the entry found by the fallback lookup reaches the value the result is built from")
 	}
+	// … or made in a helper (`lookupDonor(base, suffixes)`): what the helper finds must be what it
+	// returns, and what it returns must reach the value the result is built from
+	eachInstr(fn, func(in ssa.Instruction) {
+		call, ok := in.(*ssa.Call)
+		if !ok {
+			return
+		}
+		h := call.Call.StaticCallee()
+		if h == nil || h == fn || h.Pkg != fn.Pkg || len(h.Blocks) == 0 {
+			return
+		}
+		inner := callsIn(h, func(_ string, cc *ssa.CallCommon) bool { return cc.StaticCallee() == fn })
+		if len(inner) == 0 {
+			return
+		}
+		n++
+		used := closure[call]
+		for _, r := range referrers(call) {
+			if ex, ok := r.(*ssa.Extract); ok && ex.Index == 0 && closure[ex] {
+				used = true
+			}
+		}
+		hclosure := map[ssa.Value]bool{}
+		var hwalk func(v ssa.Value)
+		hwalk = func(v ssa.Value) {
+			if hclosure[v] {
+				return
+			}
+			hclosure[v] = true
+			if phi, ok := v.(*ssa.Phi); ok {
+				for _, e := range phi.Edges {
+					hwalk(e)
+				}
+			}
+		}
+		for _, r := range returnsOf(h) {
+			if len(r.Results) > 0 {
+				hwalk(derefCell(resultOf(r, 0)))
+			}
+		}
+		for _, ic := range inner {
+			got := false
+			for _, r := range referrers(ic.(ssa.Value)) {
+				if ex, ok := r.(*ssa.Extract); ok && ex.Index == 0 && hclosure[ex] {
+					got = true
+				}
+			}
+			if !got {
+				used = false
+			}
+		}
+		c.Check(used, "C14-R9", fmt.Sprintf("LookupTerminfo:fallback#%d:found-base-is-used", n), p.pos(call.Pos()), "the entry found by the fallback lookup (in "+h.Name()+") is returned by it and reaches the value the result is built from")
+	})
 	if n == 0 {
 		c.Undecided("C14-R9", "LookupTerminfo:fallbacks", p.pos(fn.Pos()), "no fallback lookups found")
 	}
